@@ -4,7 +4,8 @@
     little-endian, [value w] is the number a list denotes, [wf w] says every word is in [0, B). *)
 From Dashu Require Import Base.Prelude Base.Words Int.RingSpec Int.RingSign Int.RingAdd Int.RingAddProofs
   Int.RingMul Int.RingMulProofs Int.RingKaraProofs Int.RingToomProofs Int.RingToomW Int.RingToomWProofs Int.RingDispatchProofs Int.RingSqrProofs
-  Int.RingOps Int.RingOpsProofs Int.RingOpsMulProofs Int.RingPowProofs Int.RingTop Int.RingExamples.
+  Int.RingOps Int.RingOpsProofs Int.RingOpsMulProofs Int.RingPowProofs Int.RingTop Int.RingExamples
+  Int.DivWordModel Int.DivWordProofs Int.RingMulW Int.RingMulWProofs Int.RingOpsW Int.RingOpsWProofs Int.RingTopW.
 From DashuGen Require Import SignTables Params.
 Open Scope Z_scope.
 
@@ -201,3 +202,149 @@ Theorem C01_ibig_pow : forall w, 8 <= w -> forall s x e, tok w x -> 0 <= e ->
     srepr_value w r = pow_spec (signed s (repr_value w x)) e.
 Proof. exact ibig_pow_exact. Qed.
 Print Assumptions C01_ibig_pow.
+
+(** ================================================================================================
+    Deepening round 3: the WORD-LEVEL multiplication stack (Int/RingMulW.v) - the as-is model the
+    correspondence run evaluates.  Toom-3 is the slice-by-slice transcription of toom_3.rs INCLUDING its calls
+    div::div_by_word_in_place(t1, 6) and shift::shr_in_place(t2, 1) (word-level models of Int/DivWordModel.v);
+    [div2by1] is num-modular's Normalized2by1Divisor::div_rem_2by1 with the contract C02 assumes for it. *)
+Theorem C01_toom3_fully_word_level : forall w, 8 <= w -> forall div2by1,
+  (forall d a, norm1 w d -> 0 <= a < d * B w -> div2by1 d a = (a / d, a mod d)) ->
+  forall rec_same c s a b,
+  pre w c a b -> length a = length b -> (16 <= length a)%nat -> same_ok w rec_same (length a) ->
+  exists r carry, toom3x_same_len w div2by1 rec_same c s a b = Ok (r, carry) /\ length r = length c /\ wf w r /\
+    value w r + carry * B w ^ len c = value w c + sgnz s * (value w a * value w b).
+Proof. exact toom3x_ok. Qed.
+Print Assumptions C01_toom3_fully_word_level.
+
+(** the size dispatch over the word-level kernels, for EVERY admissible threshold triple and every pair of lengths
+    (balanced or not; Toom-3 only ever entered at >= 16 words) *)
+Theorem C01_word_level_dispatch_any_thresholds : forall w, 8 <= w -> forall div2by1,
+  (forall d a, norm1 w d -> 0 <= a < d * B w -> div2by1 d a = (a / d, a mod d)) ->
+  forall T_simple T_kara CHUNK, (1 <= T_simple)%nat -> (15 <= T_kara)%nat -> (1 <= CHUNK)%nat ->
+  forall c s a b, wf w c /\ wf w a /\ wf w b /\ length c = (length a + length b)%nat ->
+  exists r carry, add_signed_mul_w w div2by1 T_simple T_kara CHUNK c s a b = Ok (r, carry) /\ length r = length c /\ wf w r /\
+    value w r + carry * B w ^ len c = value w c + sgnz s * (value w a * value w b).
+Proof. exact add_signed_mul_w_ok. Qed.
+Print Assumptions C01_word_level_dispatch_any_thresholds.
+
+Theorem C01_word_level_same_len_dispatch : forall w, 8 <= w -> forall div2by1,
+  (forall d a, norm1 w d -> 0 <= a < d * B w -> div2by1 d a = (a / d, a mod d)) ->
+  forall T_simple T_kara CHUNK, (1 <= T_simple)%nat -> (15 <= T_kara)%nat -> (1 <= CHUNK)%nat ->
+  forall c s a b, wf w c /\ wf w a /\ wf w b /\ length c = (length a + length b)%nat -> length a = length b ->
+  exists r carry, add_signed_mul_same_len_w w div2by1 T_simple T_kara c s a b = Ok (r, carry) /\ length r = length c /\ wf w r /\
+    value w r + carry * B w ^ len c = value w c + sgnz s * (value w a * value w b).
+Proof. exact add_signed_mul_same_len_w_ok. Qed.
+Print Assumptions C01_word_level_same_len_dispatch.
+
+(** the thresholds regenerated from the source meet what the word-level proof needs: Toom-3 is entered only at
+    or above toom_3::MIN_LEN, and MIN_LEN is at least the 16 words the slice layout needs *)
+Theorem C01_thresholds_admissible_word_level :
+  (1 <= src_T_simple)%nat /\ (15 <= src_T_kara)%nat /\ (1 <= src_CHUNK)%nat /\
+  toom3_min_len <= mul_threshold_karatsuba + 1 /\ 16 <= toom3_min_len /\
+  karatsuba_min_len <= mul_threshold_simple + 1 /\ 2 <= karatsuba_min_len.
+Proof. exact source_thresholds_admissible_w. Qed.
+Print Assumptions C01_thresholds_admissible_word_level.
+
+Theorem C01_add_signed_mul_word_level : forall w, 8 <= w -> forall div2by1,
+  (forall d a, norm1 w d -> 0 <= a < d * B w -> div2by1 d a = (a / d, a mod d)) ->
+  forall c s a b, wf w c /\ wf w a /\ wf w b /\ length c = (length a + length b)%nat ->
+  exists r carry, add_signed_mul_w w div2by1 src_T_simple src_T_kara src_CHUNK c s a b = Ok (r, carry) /\
+    length r = length c /\ wf w r /\ -1 <= carry <= 1 /\
+    value w r + carry * B w ^ len c = value w c + sgnz s * (value w a * value w b).
+Proof. exact add_signed_mul_w_source_ok. Qed.
+Print Assumptions C01_add_signed_mul_word_level.
+
+Theorem C01_multiply_word_level : forall w, 8 <= w -> forall div2by1,
+  (forall d a, norm1 w d -> 0 <= a < d * B w -> div2by1 d a = (a / d, a mod d)) ->
+  forall a b, wf w a -> wf w b ->
+  exists r, multiply_w w div2by1 src_T_simple src_T_kara src_CHUNK a b = Ok r /\ length r = (length a + length b)%nat /\ wf w r /\
+            value w r = value w a * value w b.
+Proof. exact multiply_w_source_correct. Qed.
+Print Assumptions C01_multiply_word_level.
+
+(** the three kernels verif_hooks::mul_kernel drives directly (which = 1, 2, 3), on their documented domains *)
+Theorem C01_hook_simple_word_level : forall w, 8 <= w -> forall div2by1,
+  (forall d a, norm1 w d -> 0 <= a < d * B w -> div2by1 d a = (a / d, a mod d)) ->
+  forall T_simple T_kara CHUNK, (1 <= T_simple)%nat -> (15 <= T_kara)%nat -> (1 <= CHUNK)%nat ->
+  forall c s a b, pre w c a b -> (length b <= length a)%nat ->
+  exists r carry, simple_add_signed_mul_w w div2by1 T_simple T_kara CHUNK c s a b = Ok (r, carry) /\ length r = length c /\ wf w r /\
+    value w r + carry * B w ^ len c = value w c + sgnz s * (value w a * value w b).
+Proof. exact simple_add_signed_mul_w_ok. Qed.
+Print Assumptions C01_hook_simple_word_level.
+
+Theorem C01_hook_karatsuba_word_level : forall w, 8 <= w -> forall div2by1,
+  (forall d a, norm1 w d -> 0 <= a < d * B w -> div2by1 d a = (a / d, a mod d)) ->
+  forall T_simple T_kara CHUNK, (1 <= T_simple)%nat -> (15 <= T_kara)%nat -> (1 <= CHUNK)%nat ->
+  forall c s a b, pre w c a b -> (length b <= length a)%nat -> (2 <= length b)%nat ->
+  exists r carry, karatsuba_add_signed_mul_w w div2by1 T_simple T_kara CHUNK c s a b = Ok (r, carry) /\ length r = length c /\ wf w r /\
+    value w r + carry * B w ^ len c = value w c + sgnz s * (value w a * value w b).
+Proof. exact karatsuba_add_signed_mul_w_ok. Qed.
+Print Assumptions C01_hook_karatsuba_word_level.
+
+Theorem C01_hook_toom3_word_level : forall w, 8 <= w -> forall div2by1,
+  (forall d a, norm1 w d -> 0 <= a < d * B w -> div2by1 d a = (a / d, a mod d)) ->
+  forall T_simple T_kara CHUNK, (1 <= T_simple)%nat -> (15 <= T_kara)%nat -> (1 <= CHUNK)%nat ->
+  forall c s a b, pre w c a b -> (length b <= length a)%nat -> (16 <= length b)%nat ->
+  exists r carry, toom3_add_signed_mul_w w div2by1 T_simple T_kara CHUNK c s a b = Ok (r, carry) /\ length r = length c /\ wf w r /\
+    value w r + carry * B w ^ len c = value w c + sgnz s * (value w a * value w b).
+Proof. exact toom3_add_signed_mul_w_ok. Qed.
+Print Assumptions C01_hook_toom3_word_level.
+
+(** the contract determines the answer: the word-level dispatch and the dispatch of RingMul.v (Toom-3
+    interpolation at value level) are the same function on well-formed operands *)
+Theorem C01_word_level_equals_value_level : forall w, 8 <= w -> forall div2by1,
+  (forall d a, norm1 w d -> 0 <= a < d * B w -> div2by1 d a = (a / d, a mod d)) ->
+  forall T_simple T_kara CHUNK, (1 <= T_simple)%nat -> (15 <= T_kara)%nat -> (1 <= CHUNK)%nat ->
+  forall c s a b, pre w c a b ->
+  add_signed_mul_w w div2by1 T_simple T_kara CHUNK c s a b = add_signed_mul w T_simple T_kara CHUNK c s a b.
+Proof. exact add_signed_mul_w_eq. Qed.
+Print Assumptions C01_word_level_equals_value_level.
+
+(** sqr::sqr and the operators * sqr cubic over the word-level kernels, thresholds of the source *)
+Theorem C01_sqr_kernel_word_level : forall w, 8 <= w -> forall div2by1,
+  (forall d a, norm1 w d -> 0 <= a < d * B w -> div2by1 d a = (a / d, a mod d)) ->
+  forall a, wf w a ->
+  exists r, sqr_w w div2by1 src_T_simple src_T_kara src_SQR a = Ok r /\
+            length r = (2 * length a)%nat /\ wf w r /\ value w r = value w a * value w a.
+Proof. exact sqr_kernel_w_exact. Qed.
+Print Assumptions C01_sqr_kernel_word_level.
+
+Theorem C01_ubig_mul_word_level : forall w, 8 <= w -> forall div2by1,
+  (forall d a, norm1 w d -> 0 <= a < d * B w -> div2by1 d a = (a / d, a mod d)) ->
+  forall x y, tok w x -> tok w y ->
+  exists r, repr_mul_w w div2by1 src_T_simple src_T_kara src_CHUNK src_SQR x y = Ok r /\
+    Ok (repr_value w r) = ubig_mul_spec (repr_value w x) (repr_value w y) /\ twf w r.
+Proof. exact ubig_mul_w_exact. Qed.
+Print Assumptions C01_ubig_mul_word_level.
+
+Theorem C01_ibig_mul_word_level : forall w, 8 <= w -> forall div2by1,
+  (forall d a, norm1 w d -> 0 <= a < d * B w -> div2by1 d a = (a / d, a mod d)) ->
+  forall s0 x s1 y, tok w x -> tok w y ->
+  exists r, ibig_mul_asis_w w div2by1 src_T_simple src_T_kara src_CHUNK src_SQR s0 x s1 y = Ok r /\
+    srepr_value w r = ibig_mul_spec (signed s0 (repr_value w x)) (signed s1 (repr_value w y)) /\ twf w (snd r).
+Proof. exact ibig_mul_w_exact. Qed.
+Print Assumptions C01_ibig_mul_word_level.
+
+Theorem C01_sqr_word_level : forall w, 8 <= w -> forall div2by1,
+  (forall d a, norm1 w d -> 0 <= a < d * B w -> div2by1 d a = (a / d, a mod d)) ->
+  forall x, tok w x ->
+  exists r, repr_sqr_w w div2by1 src_T_simple src_T_kara src_SQR x = Ok r /\ repr_value w r = sqr_spec (repr_value w x) /\ twf w r.
+Proof. exact sqr_w_exact. Qed.
+Print Assumptions C01_sqr_word_level.
+
+Theorem C01_ubig_cubic_word_level : forall w, 8 <= w -> forall div2by1,
+  (forall d a, norm1 w d -> 0 <= a < d * B w -> div2by1 d a = (a / d, a mod d)) ->
+  forall x, tok w x ->
+  exists r, ubig_cubic_asis_w w div2by1 src_T_simple src_T_kara src_CHUNK src_SQR x = Ok r /\
+    repr_value w r = cubic_spec (repr_value w x) /\ twf w r.
+Proof. exact ubig_cubic_w_exact. Qed.
+Print Assumptions C01_ubig_cubic_word_level.
+
+Theorem C01_ibig_cubic_word_level : forall w, 8 <= w -> forall div2by1,
+  (forall d a, norm1 w d -> 0 <= a < d * B w -> div2by1 d a = (a / d, a mod d)) ->
+  forall s x, tok w x ->
+  exists r, ibig_cubic_asis_w w div2by1 src_T_simple src_T_kara src_CHUNK src_SQR s x = Ok r /\
+    srepr_value w r = cubic_spec (signed s (repr_value w x)) /\ twf w (snd r).
+Proof. exact ibig_cubic_w_exact. Qed.
+Print Assumptions C01_ibig_cubic_word_level.
